@@ -85,6 +85,7 @@ def worker(item: Any, res: runner.Result) -> None:
         # a comparison whose value is left on the stack at the end of the program is neither asserted
         # nor branched on: exactness is not demanded there
         abstract.check_c09_abstract(case, item, res, single_atom=n_fee == 1 and not (mode == "g1a" and sem.can_fall_off_end(case.lines)))
+    abstract.check_c09_credit(case, item, res)
     res.outcome(outcome)
     if any(0 < mf < (1 << 64) - 1 for _, mf, _ in outcome):
         res.mark_nontrivial(src)
